@@ -1,6 +1,8 @@
 // Fault enumeration ops (C20, C02): truncation, k-th allocation failure, stream failure at byte offset,
 // library-detected mid-save errors — on fixed scenarios over the real archives.
-//   fault.trunc <archive> <src> <hex doc> <k>      load the first k bytes
+//   fault.trunc <archive> <src> <hex doc> <k>      load the first k bytes   (archive mpx: document with members the class does not
+//                                                   know; mptup: array longer than the target tuple — truncation is then noticed
+//                                                   only by the skip loops of the scope destructors)
 //   fault.alloc <scenario> <k>                      the k-th operator new during the scenario throws bad_alloc
 //   fault.io <scenario> <offset>                    the stream buffer fails at byte <offset>
 //   fault.midsave <scenario>                        value/consistency error detected midway through a save
@@ -22,6 +24,7 @@
 #include "bitserializer/types/std/vector.h"
 #include "bitserializer/types/std/map.h"
 #include "bitserializer/types/std/optional.h"
+#include "bitserializer/types/std/tuple.h"
 
 using namespace vh;
 using namespace BitSerializer;
@@ -73,6 +76,20 @@ struct RaggedRow {
 		if (x % 2) { int extra = 1; archive << KeyValue("extra", extra); }
 	}
 };
+
+// Outer with one more member at the end that the class being loaded (Outer) does not know: whatever is missing from it is
+// noticed only when ~CMsgPackReadObjectScope skips the members that were not read (the deferred-error path)
+struct OuterX {
+	Outer base; std::vector<std::string> zz{ "one", std::string(40, 'z') }; std::map<std::string, int> zm{ {"k", 3} };
+	template <class TArchive> void Serialize(TArchive& archive) {
+		archive << KeyValue("id", base.id) << KeyValue("name", base.name) << KeyValue("nums", base.nums) << KeyValue("inner", base.inner)
+			<< KeyValue("m", base.m) << KeyValue("opt", base.opt) << KeyValue("zz", zz) << KeyValue("zm", zm);
+	}
+};
+// an array longer than the tuple it is loaded into (Skip policy): the surplus elements are skipped by ~CMsgPackReadArrayScope
+using LongTuple = std::tuple<int, std::string, int, std::string, std::vector<int>, std::string>;
+using ShortTuple = std::tuple<int, std::string>;
+LongTuple sampleLongTuple() { return { 7, "seven", 70000, std::string(40, 't'), { 1, 2, 300 }, "end" }; }
 
 Outer sampleOuter() {
 	Outer o; o.id = 42; o.name = std::string(40, 'n'); o.nums = { 1, 2, 300, 70000 }; o.inner.a = -7; o.inner.s = "inner string value";
@@ -159,6 +176,8 @@ Register f1("fault.trunc", [](const Tokens& t) -> std::string {
 	if (t[3] == "@") {
 		if (t[1] == "mp") full = SaveObject<MsgPack::MsgPackArchive>(sampleOuter());
 		else if (t[1] == "mpvec") full = SaveObject<MsgPack::MsgPackArchive>(std::vector<std::vector<int>>{ {1, 2, 3}, {}, {70000, -5} });
+		else if (t[1] == "mpx") { OuterX x; x.base = sampleOuter(); full = SaveObject<MsgPack::MsgPackArchive>(x); }
+		else if (t[1] == "mptup") full = SaveObject<MsgPack::MsgPackArchive>(sampleLongTuple());
 		else if (t[1] == "csv") full = SaveObject<Csv::CsvArchive>(sampleRows());
 		else if (t[1] == "json") full = SaveObject<Json::RapidJson::JsonArchive>(sampleOuter());
 		else if (t[1] == "xml") full = SaveObject<Xml::PugiXml::XmlArchive>(sampleOuter());
@@ -171,8 +190,9 @@ Register f1("fault.trunc", [](const Tokens& t) -> std::string {
 	auto opts = skipOpts();
 	return guarded([&] {
 		std::istringstream is(doc);
-		if (t[1] == "mp") { Outer o; if (stream) LoadObject<MsgPack::MsgPackArchive>(o, is, opts); else LoadObject<MsgPack::MsgPackArchive>(o, doc, opts); }
+		if (t[1] == "mp" || t[1] == "mpx") { Outer o; if (stream) LoadObject<MsgPack::MsgPackArchive>(o, is, opts); else LoadObject<MsgPack::MsgPackArchive>(o, doc, opts); }
 		else if (t[1] == "mpvec") { std::vector<std::vector<int>> o; if (stream) LoadObject<MsgPack::MsgPackArchive>(o, is, opts); else LoadObject<MsgPack::MsgPackArchive>(o, doc, opts); }
+		else if (t[1] == "mptup") { ShortTuple o; if (stream) LoadObject<MsgPack::MsgPackArchive>(o, is, opts); else LoadObject<MsgPack::MsgPackArchive>(o, doc, opts); }
 		else if (t[1] == "csv") { std::vector<Row> r; if (stream) LoadObject<Csv::CsvArchive>(r, is, opts); else LoadObject<Csv::CsvArchive>(r, doc, opts); }
 		else if (t[1] == "json") { Outer o; if (stream) LoadObject<Json::RapidJson::JsonArchive>(o, is, opts); else LoadObject<Json::RapidJson::JsonArchive>(o, doc, opts); }
 		else if (t[1] == "xml") { Outer o; if (stream) LoadObject<Xml::PugiXml::XmlArchive>(o, is, opts); else LoadObject<Xml::PugiXml::XmlArchive>(o, doc, opts); }
@@ -238,6 +258,32 @@ Register f4("fault.midsave", [](const Tokens& t) -> std::string {
 	if (t[1] == "csv_ragged_stream") return guarded([] { std::vector<RaggedRow> r{ {2}, {3} }; std::ostringstream os; SaveObject<Csv::CsvArchive>(r, os); });
 	if (t[1] == "json_nan") return guarded([] { std::vector<double> v{ 1.0, std::numeric_limits<double>::quiet_NaN() }; std::string out; SaveObject<Json::RapidJson::JsonArchive>(v, out); });
 	throw BadOp("scenario");
+});
+
+// fault.defer <class>...   (or `-` for none): SerializationContext::DeferError called once per class, in that order, then
+// RethrowDeferredError() twice — the deferred-error mechanism of the scope destructors on its own.
+// answer: <outcome of the first rethrow> <outcome of the second>
+Register f6("fault.defer", [](const Tokens& t) -> std::string {
+	if (t.size() < 2) throw BadOp("arity");
+	SerializationOptions options;
+	SerializationContext ctx(options);
+	for (size_t i = 1; i < t.size(); ++i) {
+		const std::string& c = t[i];
+		if (c == "-") continue;
+		std::exception_ptr p;
+		if (c == "parsing") p = std::make_exception_ptr(ParsingException("deferred"));
+		else if (c == "ser_out_of_range") p = std::make_exception_ptr(SerializationException(SerializationErrorCode::OutOfRange, "deferred"));
+		else if (c == "mismatched") p = std::make_exception_ptr(SerializationException(SerializationErrorCode::MismatchedTypes, "deferred"));
+		else if (c == "overflow") p = std::make_exception_ptr(SerializationException(SerializationErrorCode::Overflow, "deferred"));
+		else if (c == "utf") p = std::make_exception_ptr(SerializationException(SerializationErrorCode::UtfEncodingError, "deferred"));
+		else if (c == "bad_alloc") p = std::make_exception_ptr(std::bad_alloc());
+		else if (c == "out_of_range") p = std::make_exception_ptr(std::out_of_range("deferred"));
+		else throw BadOp("class");
+		ctx.DeferError(p);
+	}
+	const std::string first = guarded([&] { ctx.RethrowDeferredError(); });
+	const std::string second = guarded([&] { ctx.RethrowDeferredError(); });
+	return first + " " + second;
 });
 
 } // namespace
